@@ -426,6 +426,9 @@ func fragmentClosure(pre *hpack.Decoder, block []byte, whole obs, full bool) (n 
 func TestCheck(t *testing.T) {
 	rep := ev.New("C18", "model_checking")
 	defer rep.Write()
+	if u := hpack.VerifC18UnknownFields(); len(u) > 0 {
+		rep.HarnessError("the codec state structures have fields the clone/state-key code does not cover (%v): the state search could merge or corrupt states, results of this run are not trustworthy", u)
+	}
 	shard, of := mc.ShardFromEnv()
 	h := &harness{rep: rep, shard: shard, of: of, seenSig: map[string]int{}, start: time.Now()}
 	budget := 75 * time.Second
